@@ -644,6 +644,19 @@ class History:
         self.entry_set_changed = True
         self.add(live)
         self.after_step([live, r], normalised=[live])
+        if mode == "some" and n >= 2 and rng.random() < 0.3:
+            # the caller's mask array is re-used: shuffled IN PLACE (same object, same length, as many rows kept) and
+            # applied again - to the same index or to another one of the same length
+            rng.shuffle(mask)
+            r2 = r
+            if rng.random() < 0.4:
+                r2 = self.choose(lambda l: l.m.ndim <= 2 and l.m.shape[0] == n) or r
+            self.log("filtered_again_with_the_mask_object_shuffled_in_place", mask=mask.astype(int).tolist())
+            res2 = r2.x.filtered(mask, int(mask.sum()))
+            live2 = Live(res2, r2.m[mask], "filtered")
+            self.ctx.count("filtered:mask_object_reused_after_in_place_change")
+            self.add(live2)
+            self.after_step([live2, r2], normalised=[live2], what="filtered (mask object re-used after an in-place change)")
         return True
 
     def op_sliced(self):
@@ -666,25 +679,39 @@ class History:
             else:
                 orders.append(None)
                 index.append(slice(None))
+        def model(orders):
+            # NumPy model: successive column selection, axis by axis (avoids fancy-index broadcasting)
+            mm = r.m
+            axis = 1
+            for o in orders:
+                if isinstance(o, int):
+                    mm = numpy.take(mm, o, axis=axis)
+                elif o is None:
+                    axis += 1
+                else:
+                    mm = numpy.take(mm, o, axis=axis)
+                    axis += 1
+            return mm.copy()
+
         snap = monitors.snapshot(r.x)
         self.log("sliced", orders=orders)
         res = r.x.sliced(*orders)
-        # NumPy model: successive column selection, axis by axis (avoids fancy-index broadcasting)
-        mm = r.m
-        axis = 1
-        for o in orders:
-            if isinstance(o, int):
-                mm = numpy.take(mm, o, axis=axis)
-            elif o is None:
-                axis += 1
-            else:
-                mm = numpy.take(mm, o, axis=axis)
-                axis += 1
-        live = Live(res, mm.copy(), "sliced")
+        live = Live(res, model(orders), "sliced")
         self.unchanged(snap, r.x, "sliced(receiver)")
         self.entry_set_changed = True
         self.add(live)
         self.after_step([live])
+        lists = [o for o in orders if isinstance(o, list) and len(o) >= 2]
+        if lists and rng.random() < 0.4:
+            # the caller's order lists are re-used: changed IN PLACE (same objects, same lengths) and passed again
+            for o in lists:
+                o.reverse() if rng.random() < 0.5 else o.append(o.pop(0))
+            self.log("sliced_again_with_the_order_lists_changed_in_place", orders=orders)
+            res2 = r.x.sliced(*orders)
+            live2 = Live(res2, model(orders), "sliced")
+            self.ctx.count("sliced:order_lists_reused_after_in_place_change")
+            self.add(live2)
+            self.after_step([live2], what="sliced (order lists re-used after an in-place change)")
         return True
 
     def op_slices1d(self):
